@@ -167,3 +167,53 @@ def reachable_bodies(world, roots, trait_dispatch=None):
                     if j not in seen:
                         st.append(j)
     return seen
+
+
+def site_what(world, bv, st):
+    """A position-independent descriptor of a panic-capable site: what is unwrapped / indexed / asserted, as a
+    canonical term with parameters anonymised.  It survives reordering of statements, renaming, added or removed
+    sibling sites and moving the code into a helper; it changes when the operand itself changes."""
+    import re
+    from . import terms, optnorm
+    t = st["t"]
+    parts = []
+    if t["k"] == "call":
+        args = t.get("args") or []
+        if st["desc"].startswith("api:Index") or st["desc"].startswith("api:Vec::") or st["desc"].startswith("api:slice") or st["desc"].startswith("api:str"):
+            use = args
+        elif st["desc"].startswith("api:"):
+            use = args[:1]
+        else:
+            use = args
+        for a in use:
+            try:
+                tm = bv.trace_op(a)
+                ft = terms.format_term(bv, tm) if st["desc"].startswith("panic:") else None
+                if ft is not None and ft[0] is not None:
+                    parts.append("fmt(%r)" % ft[0])
+                else:
+                    parts.append(terms.render(bv, tm, world, {}))
+            except Exception as e:  # descriptor only; never a verdict
+                parts.append("?")
+    elif t["k"] == "assert":
+        for a in (t.get("ops") or []) + ([t["cond"]] if isinstance(t.get("cond"), dict) else []):
+            try:
+                parts.append(terms.render(bv, bv.trace_op(a), world, {}))
+            except Exception:
+                parts.append("?")
+    s = "; ".join(parts)
+    # the task context argument of poll() is noise
+    while True:
+        m = re.search(r"get_context\(", s)
+        if not m:
+            break
+        c = optnorm._match_paren(s, m.end() - 1)
+        if c < 0:
+            break
+        s = s[:m.start()] + "cx" + s[c + 1:]
+    s = re.sub(r"\('undef', \d+\)", "undef", s)
+    s = optnorm.canon(s)
+    s = re.sub(r"param\d+(\.\d+)*", "_", s)
+    s = re.sub(r"\('rec', \d+\)", "rec", s)
+    s = re.sub(r"\{closure#\d+\}", "{closure}", s)
+    return s[:300]
